@@ -867,6 +867,101 @@ def subject_drift(work, harness, seed, runs=40, corrupt=None, tagp='sj'):
     return out
 
 
+def comb_drift(work, harness, seed, runs=40, corrupt=None, tagp='cd'):
+    """Lock-level conformance of the real merge (one input per thread) with the L1 design model CombConc (spec/CombConcTrace.tla)."""
+    out = {'cases': 0, 'traces': 0, 'lines': 0, 'drift': []}
+    todo = [case('cd/merge2/1-item-each', T('merge', ins=[S(1), S(2)]), [items(1, 1) + [E(1, 'c')], items(2, 1) + [E(2, 'c')]]),
+            case('cd/merge2/2-items-each', T('merge', ins=[S(1), S(2)]), [items(1, 2) + [E(1, 'c')], items(2, 2) + [E(2, 'c')]]),
+            case('cd/merge3/1-item-each', T('merge', ins=[S(1), S(2), S(3)]), [items(1, 1) + [E(1, 'c')], items(2, 1) + [E(2, 'c')], items(3, 1) + [E(3, 'c')]])]
+    path = work + '/cd.cases.json'
+    with open(path, 'w') as f:
+        json.dump(todo, f)
+    r = subprocess.run([harness, 'conc', '--cases', path, '--mode', 'random', '--max-runs', str(runs), '--seed', str(seed), '--log-locks', '1', '--out', work + '/cd.ndjson'], capture_output=True, text=True)
+    if r.returncode != 0:
+        raise ToolError('harness conc --log-locks failed: ' + r.stderr[-1500:])
+    byname = {c['name']: c for c in todo}
+    per_case = {}
+    cur = None
+    for line in open(work + '/cd.ndjson'):
+        v = json.loads(line)
+        if v['ev'] == 'reset':
+            cur = {'name': v['name'], 'ev': []}
+            per_case.setdefault(v['name'], []).append(cur)
+        elif v['ev'] != 'quiesce':
+            cur['ev'].append(v)
+    gen = work + '/gen'
+    for name, runs_ in per_case.items():
+        c = byname[name]
+        lines = []
+        bad = None
+        for run in runs_:
+            evs = run['ev']
+            hth = set(e['t'] for e in evs if e['ev'] == 'hthread')
+            spawned = [e['v'] for e in evs if e['ev'] == 'spawn' and e['t'] == 0 and e['v'] in hth]
+            tmap = {t: i + 1 for i, t in enumerate(spawned)}
+            slotn = None
+            umap = None
+            seen_sub = False
+            for e in evs:
+                if e['ev'] == 'subcall' and e.get('u') == 1:
+                    seen_sub = True
+                elif seen_sub and e['ev'] == 'lk' and e['op'] == 'new':
+                    if slotn is None and re.search(r'internals/function_wrapper\.rs:\d+$', e.get('site', '')):
+                        slotn = e['lock']
+                    if umap is None and 'internals/stream_controller.rs' in e.get('site', '') and re.search(r'unscribers\s*:', repo_src_line(e['site'])):
+                        umap = e['lock']
+            if slotn is None or umap is None:
+                bad = 'the subscriber\'s next slot / the controller\'s unsubscriber map could not be identified in the lock log'
+                break
+            lines.append(json.dumps({'ev': 'reset', 't': 0, 'k': ''}))
+            fresh, fresh_rm = {}, {}
+            for e in evs:
+                if e['t'] not in tmap:
+                    continue
+                t = tmap[e['t']]
+                if e['ev'] == 'emitcall':
+                    lines.append(json.dumps({'ev': 'call', 't': t, 'k': e['k']}))
+                    fresh[t] = True
+                    fresh_rm[t] = True
+                elif e['ev'] == 'emitret':
+                    lines.append(json.dumps({'ev': 'ret', 't': t, 'k': ''}))
+                elif e['ev'] == 'lk' and e['op'] == 'acq':
+                    if e['lock'] == slotn and e['m'] == 'R' and fresh.get(t):
+                        lines.append(json.dumps({'ev': 'chk', 't': t, 'k': ''}))
+                        fresh[t] = False
+                    elif e['lock'] == umap and e['m'] == 'W' and fresh_rm.get(t):      # (finalize() clears the map under the same lock later: not a model step)
+                        lines.append(json.dumps({'ev': 'rm', 't': t, 'k': ''}))
+                        fresh_rm[t] = False
+                elif e['ev'] == 'cbstart' and e.get('u') == 1:
+                    lines.append(json.dumps({'ev': 'cb', 't': t, 'k': e['k']}))
+            out['traces'] += 1
+        if bad:
+            out['drift'].append({'case': name, 'detail': bad})
+            continue
+        if corrupt:
+            lines = corrupt(lines)
+            if lines is None:
+                continue
+        out['cases'] += 1
+        out['lines'] += len(lines)
+        tag = tagp + '_' + re.sub(r'[^a-z0-9]', '_', name)
+        tpath = '%s/%s.ndjson' % (work, tag)
+        with open(tpath, 'w') as f:
+            f.write('\n'.join(lines) + '\n')
+        cfg = '%s/%s.cfg' % (gen, tag)
+        nitems = len([s_ for s_ in c['threads'][0] if s_['op'] == 'emit' and s_['k'] == 'n'])
+        with open(cfg, 'w') as f:
+            f.write('SPECIFICATION TSpec\nCONSTANTS NInputs = %d\n NItems = %d\n Amb = FALSE\n AtomicRemove = TRUE\n AtomicElect = TRUE\nCONSTRAINT Progress\nINVARIANT ModelInvariants\nPOSTCONDITION Accepted\nCHECK_DEADLOCK FALSE\n' % (len(c['threads']), nitems))
+        env = dict(os.environ)
+        env['TRACE'] = tpath
+        env['JAVA_TOOL_OPTIONS'] = '-Xss1g -Xmx3g'
+        rr = subprocess.run(['timeout', '600'] + tlc_cmd(1, '%s/md-%s' % (work, tag), cfg, 'CombConcTrace.tla'), cwd=gen, capture_output=True, text=True, env=env)
+        if 'Model checking completed. No error has been found.' not in rr.stdout:
+            m = re.search(r'DRIFT: [^\n]*\n?[^\n]*\n?[^\n]*', rr.stdout)
+            out['drift'].append({'case': name, 'detail': (m.group(0) if m else rr.stdout[-900:])[:900]})
+    return out
+
+
 def load_known():
     p = V + '/known_findings.json'
     if not os.path.exists(p):
@@ -1045,6 +1140,11 @@ def run_conc_check(prop, tier, flags, seed, design_ref, models=(), extra_cases=N
             qd = sink_drift(work, harness, seed, runs=40 if tier == 'quick' else 400)
             if qd['drift']:
                 out_lines.append('MODEL-DRIFT property=C19 the lock-level log of the subscriber Observer / StreamController is no longer a behaviour of the L1 design model SinkConc (%d of %d cases; first: %s)'
+                                 % (len(qd['drift']), qd['cases'], qd['drift'][0]['detail'][:300].replace('\n', ' ')))
+        if prop == 'C11':
+            qd = comb_drift(work, harness, seed, runs=40 if tier == 'quick' else 400)
+            if qd['drift']:
+                out_lines.append('MODEL-DRIFT property=C11 the lock-level log of merge (sink_next / sink_complete, one input per thread) is no longer a behaviour of the L1 design model CombConc (%d of %d cases; first: %s)'
                                  % (len(qd['drift']), qd['cases'], qd['drift'][0]['detail'][:300].replace('\n', ' ')))
         if prop == 'C12':
             qd = subject_drift(work, harness, seed, runs=40 if tier == 'quick' else 400)
